@@ -279,6 +279,8 @@ def determine_peaks_only_delta_series(values):
     """
     # enforce array type
     values = np.array(values)
+    if values.dtype.kind in 'iu' and values.dtype.itemsize < 8:
+        values = values.astype(np.int64)  # the steps of a narrow or unsigned integer record need not fit its own type
     # rebase to zero as first value
     values -= values[0]
     # remove all non-changing values
@@ -371,6 +373,8 @@ def determine_pseudo_cyclic_peak_only_series(values):
     """
     # enforce array type
     values = np.array(values)
+    if values.dtype.kind in 'iu' and values.dtype.itemsize < 8:
+        values = values.astype(np.int64)  # the steps of a narrow or unsigned integer record need not fit its own type
     # rebase to zero as first value
     values -= values[0]
     # remove all non-changing values
